@@ -156,10 +156,13 @@ class Engine(ExprMixin, CallMixin):
         bname = (lambda n: f"{n}!b{depth}") if stable else uid
         vs = [z3.Const(bname(n), I if sorts.get(n) in self.classes or sorts.get(n) == "char" else self.sort_of(sorts.get(n, "int"))) for n in names]
         self._qdepth = depth + 1
+        qbound = getattr(self, "_qbound", ())
+        self._qbound = qbound + tuple(names)  # names bound by the enclosing quantifiers (old() keeps them, see spec_old)
         try:
             return self._quant_body(node, st, is_all, lam, sorts, names, vs)
         finally:
             self._qdepth = depth
+            self._qbound = qbound
 
     def _quant_body(self, node, st, is_all, lam, sorts, names, vs):
         st2 = st.copy()
@@ -207,6 +210,11 @@ class Engine(ExprMixin, CallMixin):
             raise ContractError("old() outside a two-state clause")
         o = st.old.copy()
         # parameters keep their entry values; locals are not visible in old()
+        for n_ in getattr(self, "_qbound", ()):
+            # a variable bound by an enclosing quantifier of the clause denotes the same value inside old(): old(e.f) with e
+            # bound reads field f of that object in the entry heap (the usual two-state meaning)
+            if n_ in st.env:
+                o.env[n_] = st.env[n_]
         return self.ev(node.args[0], o)
 
     def spec_allocated(self, node, st):
@@ -519,6 +527,14 @@ class Engine(ExprMixin, CallMixin):
                     key, root, parts = mc
                     if key in self.externals:
                         return VConc(_ExtHandle(key))
+                    if key in getattr(self.sidecar, "MODULE_ATTRS", {}) and not self.spec:
+                        # a module attribute the sidecar declares symbolic (its run-time value depends on the installation,
+                        # e.g. pulp.LpSolverDefault): every read yields an unknown value of the declared shape (references
+                        # in it: objects allocated earlier) - nothing about the real module's current value is used
+                        val = self.fresh_value(self.shape(self.sidecar.MODULE_ATTRS[key]), uid("attr_" + key), st)
+                        self.assume_wf(val.val if isinstance(val, VOpt) else val, st)
+                        self.used_externals.add("attr:" + key)
+                        return val
                     obj = root
                     for p_ in parts:
                         obj = getattr(obj, p_)
